@@ -59,12 +59,15 @@ CHECKS.update({
 })
 
 CHECKS.update({
-    'C01': dict(text=CONV + "Accept/reject and the returned value are decided against the Coq model by the correspondence (every constructor of the grammar, "
-                "random equivalent spellings); theorems: the result of every scalar conversion has the target's kind and same-kind conversion is the identity "
-                "(C02 lemmas), whatever a type accepts has a kind its head allows, containers/unions succeed only through their element conversions, unions "
-                "take the left-most member (C11), conditions restrict exactly (C13), dataclass binding table (C15). A monitor checks deep exact typing of "
-                "results and stability under re-evaluation / re-spelling. PARTIAL: a single 'denotes' relation equivalent to the model is not stated.",
-                technique='Coq model + vm_compute correspondence; structural theorems shared with C02/C11/C13/C15 (partial)', design='7 (C01)'),
+    'C01': dict(text=CONV + "Theorem (Lemmas/Denotes.v): ONE membership relation `member t v x`, written by recursion on the type from the documented element-wise rules "
+                "(it mentions none of the loops of the fast pass), and `tc t v = Ok x <-> member t v x` for EVERY type of the model's grammar (scalars, literals, "
+                "containers, fixed / variadic tuples, mappings, struct literal types, unions, conditions, enums, dataclasses in both layouts, tagged unions in the "
+                "three layouts, at any nesting), every value and every image; lifted to convert on well-formed types (member: the image; non-member: a ConvertError "
+                "tree, nothing else); the image is a function of (T, v) and is deeply exactly typed. The fast pass `tc` is tied to pane by the correspondence "
+                "(every constructor of the grammar, random equivalent spellings, deterministic boundary families). A monitor checks deep exact typing of results, "
+                "stability under re-evaluation / re-spelling and the Literal rule. PARTIAL only in what the model's grammar leaves out: library scalar types "
+                "(Decimal, dates, paths, patterns), NestedSequence / ValueOrList, custom converters -- covered by monitors and the 'std' correspondence.",
+                technique='Coq proof (membership relation = fast pass, all types of the model) + vm_compute correspondence of the model with pane (partial: library types outside the model)', design='7 (C01), 12.6'),
     'C02': dict(text=CONV + "Theorems: the generated scalar table equals the strictness matrix written from the property text (complete finite sweep); "
                 "the generic and dataclass isinstance gates treat only list/tuple as sequences and only dict as mappings (never text/bytes); for ALL "
                 "types and values an accepted value has a kind the matrix allows for the type's head, and container / tuple / mapping / union "
@@ -72,7 +75,7 @@ CHECKS.update({
                 "same-kind conversion is the identity; a literal is matched by a value of its own kind only. Exhaustive 23 targets x 11 kinds (22 representatives incl. the numbers == identifies with literal / enum members) x 8 contexts matrix on pane every run.",
                 technique='Coq proof over reflected tables + exhaustive kind x target x context matrix', design='7 (C02)'),
     'C07': dict(text=CONV + "Theorems: a sequence/tuple product node's children are exactly the positions whose element is rejected on its own, each child the "
-                "element type's own tree; struct and dataclass (mapping path) nodes: extra = exactly the keys that bind to no field, missing = exactly the required fields no key binds to; a union node has one child per member in "
+                "element type's own tree (for a dataclass in the sequence layout: the positions of the input paired with the init=True fields in order); struct and dataclass (mapping path) nodes: extra = exactly the keys that bind to no field, missing = exactly the required fields no key binds to; a union node has one child per member in "
                 "declaration order, each the member's own tree; leaves record the offending value. Dataclass / mapping nodes: correspondence "
                 "(full structural tree equality incl. expected strings) + a compositional monitor on pane; two DictConverter findings recorded.",
                 technique='Coq proof (children/missing/extra/union specs) + tree correspondence + compositional monitor', design='7 (C07)'),
@@ -125,11 +128,11 @@ CHECKS.update({
                 "corr_inst on generated classes and operation sequences. repr on pane. Three findings recorded.",
                 technique='Coq proof (order/equality/hash laws, reflected hash table; instance state machine with an invariant over operation sequences) + option-cube and operation-sequence correspondence', design='7 (C16)'),
     'C17': dict(text="Coq model of classes._process (dict update over the reversed MRO, override in place, defaults inherited through the class attribute of the nearest valued ancestor, KW_ONLY, keyword-only partition, positional "
-                "bounds) tied by correspondence on random hierarchies; theorems: effective names are in first-occurrence order, a redeclared field keeps its position "
+                "bounds) tied by correspondence on random hierarchies, and of type-variable substitution (tsubst) tied by correspondence with util.replace_typevars on generated (bindings, type expression) pairs; theorems: effective names are in first-occurrence order, a redeclared field keeps its position "
                 "and takes the last declaration, keyword-only fields are moved back stably, type-variable substitution composes and reaches every occurrence. "
                 "Signature / repr order, generic binding / forwarding / re-declaration / swapping, enforcement of substituted types and option inheritance over "
                 "2-4 levels, diamonds (the last declaration in base-first MRO order wins, with type and default) and re-parameterised generics are checked on pane. The MRO (C3) and typing.Generic internals are Python's.",
-                technique='Coq proof on the _process model + hierarchy correspondence + generic/option monitors', design='7 (C17)'),
+                technique='Coq proof on the _process / tsubst model + hierarchy and substitution correspondences + generic/option monitors', design='7 (C17)'),
     'C18': dict(text="Theorems over the dispatch order, handler iteration order, class-handler composition and field-converter test reflected from the source by AST: "
                 "the consultation order is field, call, nearest class, outer classes, protocol, scalar built-ins, registered, structural; the converter used is "
                 "the first source in that order that answers, for every subset of sources; a source answering NotImplemented defers; the mapping form matches "
